@@ -13,11 +13,11 @@ CLAUSES = {'Crash', 'SpuriousError', 'ObjectNotDelivered', 'EosNotRaised', 'NotS
 
 def run(ctx):
     rnd = random.Random(ctx.seed)
-    max_len = 10 if ctx.quick else 13
-    nstreams = 14 if ctx.quick else 40
+    max_len = 9 if ctx.quick else 13
+    nstreams = 28 if ctx.quick else 60
     with tlc.Scratch('c05') as sc:
         cases = P.generate(ctx, sc, GEN, invariants=['TypeOK', 'AllFormsDecode', 'OneTLV'])
-        streams = SP.pick_streams(cases, max_len, nstreams, ctx.seed)
+        streams = SP.pick_streams(cases, max_len, nstreams, ctx.seed, min_items=1, max_items=3)
         layouts = sorted({(tuple(st.ends), 0, True) for st in streams}, key=lambda l: (l[0][-1], l[0]))
         SP.check_refinement(ctx, sc, layouts[:4 if ctx.quick else 12])
         SP.check_ideal_liveness(ctx, sc, layouts[0][0], 0)
